@@ -56,7 +56,9 @@ def tomo_case(draw, n=None):
     return {"prog": prog, "edit": draw(st.booleans()), "edit_seed": draw(st.integers(0, 999)),
             "ulp_seed": draw(st.one_of(st.none(), st.integers(0, 10 ** 6))),
             "scale_seed": draw(st.one_of(st.none(), st.integers(0, 10 ** 6))),
-            "n_args": draw(st.sampled_from([0, 0, 1, 2])), "args_given": draw(st.booleans())}
+            "n_args": draw(st.sampled_from([0, 0, 1, 2])), "args_given": draw(st.booleans()),
+            # how the user's callback treats what it is handed / what it hands back
+            "cb_mode": draw(st.sampled_from(["plain", "plain", "consume", "scribble", "np32", "np64"]))}
 
 
 def run_tomo(case):
@@ -75,10 +77,30 @@ def run_tomo(case):
         if list(args) != extra or any(a is not b for a, b in zip(args, extra)):
             raise Violation(f"experiment callback received extra arguments {args!r}, experiment_args was {extra!r}",
                             key="experiment-args")
-        received.append(list(circuits))
+        mode = case.get("cb_mode", "plain")
+        received.append([c.copy() for c in circuits] if mode == "scribble" else list(circuits))
         us, ss = case.get("ulp_seed"), case.get("scale_seed")
-        return [qubits.exact_counts(c, n, [1, 0] * n, qubits.ulp_choice(us, i), scale=qubits.scale_choice(ss, i))
-                for i, c in enumerate(circuits)]
+        if mode == "consume":
+            # a callback that works its way through the list it was given by taking the circuits off it
+            todo, i, res = circuits, 0, []
+            while todo:
+                c = todo.pop(0)
+                res.append(qubits.exact_counts(c, n, [1, 0] * n, qubits.ulp_choice(us, i),
+                                               scale=qubits.scale_choice(ss, i)))
+                i += 1
+            return res
+        res = [qubits.exact_counts(c, n, [1, 0] * n, qubits.ulp_choice(us, i), scale=qubits.scale_choice(ss, i))
+               for i, c in enumerate(circuits)]
+        if mode == "scribble":
+            # a callback that prepares the circuits it was handed for its own hardware model: they are its to edit
+            for c in circuits:
+                c.ps(0, 0.3)
+                c.loss(c.input_modes - 1, 0.25)
+        if mode in ("np32", "np64"):
+            # frequencies as numpy scalars (what numpy-based post-processing hands back)
+            cast = np.float32 if mode == "np32" else np.float64
+            res = [{k: cast(v) for k, v in r.items()} for r in res]
+        return res
 
     if extra or case.get("args_given"):
         tomo = call("StateTomography()", tomography.StateTomography, n, base, experiment, experiment_args=extra)
@@ -87,9 +109,18 @@ def run_tomo(case):
     snap = snapshot(base)
     labels = set()
 
+    tol_rho, tol_f = (1e-5, 1e-4) if case.get("cb_mode") == "np32" else (1e-8, 1e-6)
+    labels.add("callback:" + case.get("cb_mode", "plain"))
+    kept = []
+
     def one_round(V, tag):
         received.clear()
         rho = call("process", tomo.process)
+        for old, old_copy in kept:
+            if not np.array_equal(np.asarray(old), old_copy):
+                raise Violation(f"{tag}: the matrix returned by an earlier process() call changed afterwards",
+                                key="earlier-result-overwritten")
+        kept.append((rho, np.array(rho, copy=True)))
         if not np.array_equal(np.asarray(tomo.rho), np.asarray(rho)):
             raise Violation("the rho attribute differs from the matrix process() returned", key="rho-attribute")
         if snapshot(base) != snap_now[0]:
@@ -134,11 +165,11 @@ def run_tomo(case):
         if abs(np.trace(rho) - 1) > 1e-9:
             raise Violation(f"trace(rho) = {np.trace(rho)}", key="rho-trace")
         err = np.abs(rho - rho_exp).max()
-        if err > 1e-8:
+        if err > tol_rho:
             raise Violation(f"{tag}: rho differs from |psi><psi| of the prepared state by {err:.4g}",
                             key="rho-mismatch")
         f = call("fidelity", tomo.fidelity, rho_exp)
-        if abs(f - 1) > 1e-6:
+        if abs(f - 1) > tol_f:
             raise Violation(f"fidelity against the prepared state = {f}", key="fidelity")
         return psi
 
